@@ -1,7 +1,20 @@
 import OSProofs.Props.C20
+import OSProofs.Props.C20b
 #print axioms OS.C20_rating_given
 #print axioms OS.C20_rating_defaults
 #print axioms OS.C20_create_rating
 #print axioms OS.C20_deepcopy
 #print axioms OS.teamAgg_reid
 #print axioms OS.C20_predict_reid
+#print axioms OS.omegaDelta_reid
+#print axioms OS.compute_reid
+#print axioms OS.inflate_reid
+#print axioms OS.clampTeams_reid
+#print axioms OS.unwind_reid
+#print axioms OS.C20_rateCore_reid
+#print axioms OS.C20_rate_reid
+#print axioms OS.C20_rate_values
+#print axioms OS.C20_rate_values_of_eq
+#print axioms OS.C20_rateCore_values_of_eq
+#print axioms OS.C20_rate_rebuilt
+#print axioms OS.C20_rate_setIds
